@@ -70,6 +70,10 @@ ArgMapsFor(ps, j) ==
      \o [i \in 1..n |-> drop(i)]
      \o [i \in 1..n |-> retype(i, other(ps[i].t))]
      \o Concat([i \in 1..n |-> hid(i)])
+     \* two kinds of difference in one map: a missing / re-typed argument next to names the program does not use
+     \o [i \in 1..n |-> drop(i) \o <<Entry("ZZ", T8, ArgVal(T8, 1))>>]
+     \o [i \in 1..n |-> drop(i) \o <<Entry("ZZ", T8, ArgVal(T8, 1)), Entry("AA0", TBool, VBool(TRUE))>>]
+     \o [i \in 1..n |-> retype(i, other(ps[i].t)) \o <<Entry("ZZ", T8, ArgVal(T8, 1))>>]
 
 PFamilies == {[k |-> k, rot |-> r] : k \in 0..4, r \in 0..(IF Thorough THEN 7 ELSE 3)}
 PProgramsOf(f) ==
